@@ -206,6 +206,31 @@ class Normal(ast.NodeTransformer):
         return n
 
 
+def _replace(e: ast.AST, target: ast.AST, new: ast.AST) -> ast.AST:
+    """Copy of `e` with the sub-tree `target` (by identity) replaced by a copy of `new`."""
+    if e is target:
+        return copy.deepcopy(new)
+    out = copy.copy(e)
+    for name, val in ast.iter_fields(e):
+        if isinstance(val, ast.AST):
+            setattr(out, name, _replace(val, target, new))
+        elif isinstance(val, list):
+            setattr(out, name, [_replace(x, target, new) if isinstance(x, ast.AST) else x for x in val])
+    return out
+
+
+def _first_ifexp(e: ast.AST) -> T.Optional[ast.IfExp]:
+    stack = [e]
+    while stack:
+        n = stack.pop()
+        if isinstance(n, ast.IfExp):
+            return n
+        if isinstance(n, (ast.Lambda, ast.GeneratorExp, ast.ListComp, ast.SetComp, ast.DictComp, ast.JoinedStr)):
+            continue
+        stack.extend(reversed(list(ast.iter_child_nodes(n))))
+    return None
+
+
 def _alts(e: ast.AST, val: bool) -> T.List[T.List[T.Tuple[ast.AST, bool]]]:
     """Ways a (substituted) condition can take the value `val`, as lists of (atom expression, value) in evaluation order:
     and/or/not are decomposed the way sa.paths decomposes the test of an `if` (a condition named as a local first, then tested)."""
@@ -227,6 +252,15 @@ def _alts(e: ast.AST, val: bool) -> T.List[T.List[T.Tuple[ast.AST, bool]]]:
                 pre = [a + b for a in pre for b in _alts(x, not val)]
             res += [a + b for a in pre for b in _alts(e.values[k], val)]
         return res
+    cx = _first_ifexp(e)
+    if cx is not None and cx is not e:
+        # a conditional expression inside an atom (a local bound to `a if c else b`, then tested): the atom holds on the branch c picks
+        out2: T.List[T.List[T.Tuple[ast.AST, bool]]] = []
+        for tv, branch in ((True, cx.body), (False, cx.orelse)):
+            out2 += [a + b for a in _alts(cx.test, tv) for b in _alts(_replace(e, cx, branch), val)]
+        return out2
+    if cx is e:
+        return [a + b for tv, branch in ((True, e.body), (False, e.orelse)) for a in _alts(e.test, tv) for b in _alts(branch, val)]   # type: ignore[attr-defined]
     return [[(e, val)]]
 
 
@@ -316,6 +350,32 @@ def build(fn: T.Any, body: T.List[ast.stmt], name: str, seed: T.Optional[T.Dict[
                         a, v = tables.canon(x, xv)
                         if a.kind in ('cmp', 'is') and len(a.args) >= 2 and a.args[-1] == a.args[-2] and (a.kind == 'is' or a.args[0] == 'eq'):
                             if not v:       # x == x / x is x observed false: not a path
+                                ok = False
+                                break
+                            continue
+                        if a.kind in ('cmp', 'is') and (a.kind == 'is' or a.args[0] == 'eq'):
+                            try:
+                                l_, r_ = ast.literal_eval(a.args[-2]), ast.literal_eval(a.args[-1])
+                                folded: T.Optional[bool] = (l_ is r_ or (a.kind == 'cmp' and l_ == r_ and type(l_) is type(r_)))
+                            except (ValueError, SyntaxError):
+                                folded = None
+                            if folded is not None:      # both sides are literals: fold (None == 'TODO' is false)
+                                if folded != v:
+                                    ok = False
+                                    break
+                                continue
+                        if a.kind == 'truth':
+                            try:
+                                lit = ast.literal_eval(a.args[0])
+                                if bool(lit) != v:
+                                    ok = False
+                                    break
+                                continue
+                            except (ValueError, SyntaxError):
+                                pass
+                        if a.kind == 'is' and a.args[1] == 'None' and a.args[0].endswith(')') and any(
+                                a.args[0].endswith(f'.{meth}()') for meth in ('upper', 'lower', 'casefold', 'strip', 'rstrip', 'lstrip', 'title', 'capitalize')):
+                            if v:           # a str method never returns None
                                 ok = False
                                 break
                             continue
